@@ -26,6 +26,14 @@ Reject(why) == /\ bad' = Append(bad, [sid |-> sid, line |-> l, why |-> why]) /\ 
 Step == /\ l <= Len(Log) /\ l' = l + 1
         /\ LET e == Log[l] IN
            CASE e.ev = "reset" -> sid' = e.sid /\ skip' = FALSE /\ cands' = {Init0(e.start)} /\ lens' = e.lens /\ hp' = 0 /\ UNCHANGED bad
+             [] e.ev = "resync" /\ ~skip ->
+                  \* keys (cursor movements only) arrived while a background load was in flight: where the cursor ended up
+                  \* depends on the timing, everything else does not - the pages must be exactly what the keymap says
+                  IF e.wedged THEN Reject("interface wedged (loads never settled)")
+                  ELSE LET moved == UNION {{SetCur(c, n) : n \in Lo(Cur(c))..Hi(Cur(c))} : c \in cands}
+                           next == {s \in moved : Proj(s, lens) = e.obs} IN
+                       IF next = {} THEN Reject("after keys pressed during a background load the page is not what the keymap predicts")
+                       ELSE cands' = next /\ UNCHANGED <<sid, skip, bad, lens, hp>>
              [] e.ev = "hookexit" /\ ~skip ->
                   IF e.wedged THEN Reject("interface wedged (loads never settled)")
                   ELSE LET next == {s \in {IF hp > 0 THEN HookExit(c) ELSE c : c \in cands} : Proj(s, lens) = e.obs} IN
